@@ -1,7 +1,7 @@
 #!/usr/bin/env python3
 """usage: adhoc_mut.py PROP file 'old' 'new'  -- apply a one-off textual mutant in /tmp/wt/mine2 and run the quick check."""
 import os, subprocess, sys
-WT='/tmp/wt/mine2'
+WT=os.environ.get('SEED_WT','/tmp/wt/mine2')
 prop, f, old, new = sys.argv[1:5]
 tier = sys.argv[5] if len(sys.argv) > 5 else 'quick'
 if not os.path.isdir(WT): subprocess.run(f'git -C /repo worktree add --detach {WT} HEAD', shell=True)
